@@ -351,6 +351,16 @@ func (e *Enc) query(o *Obligation, withModel bool) string {
 	} else if e.usesLex {
 		b.WriteString("(declare-fun lexle (BSeq BSeq) Bool)\n")
 	}
+	{
+		var ns []string
+		for n := range e.ufDecls {
+			ns = append(ns, n)
+		}
+		sort.Strings(ns)
+		for _, n := range ns {
+			b.WriteString(e.ufDecls[n] + "\n")
+		}
+	}
 	for _, l := range e.decls {
 		b.WriteString(l)
 		b.WriteByte('\n')
